@@ -1,7 +1,7 @@
 (* C17 — deconvolution is non-negative, scale-covariant and equals its plain definition.
    This file only pins statements; models are in Signal/Greedy.v, proofs in Signal/Greedy_proofs.v. *)
 From AG Require Import Base.Prelude Base.Res Signal.Greedy Signal.Greedy_proofs.
-From Coq Require Import Floats.
+From Coq Require Import Floats QArith Qcanon.
 Local Open Scope nat_scope.
 
 (* (1) The production loop with the `i += last_positive + 1` window skip computes exactly the plain
@@ -68,3 +68,152 @@ Theorem C17_length_all_inputs_refuted :
   exists signal : list float, length signal = 1 /\ pad_deconv_f signal resp18 = Ok [].
 Proof. exact length_all_inputs_refuted_lemma. Qed.
 Print Assumptions C17_length_all_inputs_refuted.
+
+(* (4) Sign.  Every output sample is 0.0 or a min of quotients s / r with `not (s >= 0)` and `r < 0`.
+   From three laws on the arithmetic (quotient of such a pair is "ge0", min preserves it, 0 is) every
+   sample of every sweep, and of the selected vector, is ge0.  For exact rationals ge0 is `0 <= x`
+   (C17_greedy_nonneg_Q); for binary64 the laws hold with ge0 x := "x >= +0 or x is NaN" (IEEE sign rule
+   of division; not discharged in Coq), NaN arising only from NaN/overflow upstream. *)
+Theorem C17_greedy_nonneg :
+  forall (F : Type) (zero szero : F) (add sub mul div fmin : F -> F -> F) (neg nonneg : F -> bool)
+         (ge0 : F -> Prop),
+  ge0 zero ->
+  (forall s r, nonneg s = false -> neg r = true -> ge0 (div s r)) ->
+  (forall a b, ge0 a -> ge0 b -> ge0 (fmin a b)) ->
+  forall (signal response : list F) (off la : nat) (r : F) (inp : list F),
+  nn_greedy F zero szero add sub mul div fmin neg nonneg signal response off la = Ok (r, inp) -> Forall ge0 inp.
+Proof. exact nn_greedy_nonneg_sec. Qed.
+Print Assumptions C17_greedy_nonneg.
+
+Theorem C17_ls_deconv_nonneg :
+  forall (F : Type) (zero szero inf : F) (add sub mul div fmin : F -> F -> F) (neg nonneg : F -> bool)
+         (ltb : F -> F -> bool) (ge0 : F -> Prop),
+  ge0 zero ->
+  (forall s r, nonneg s = false -> neg r = true -> ge0 (div s r)) ->
+  (forall a b, ge0 a -> ge0 b -> ge0 (fmin a b)) ->
+  forall (signal response : list F) (offs las : list nat) (out : list F),
+  ls_deconv F inf ltb (nn_greedy F zero szero add sub mul div fmin neg nonneg) signal response offs las = Ok out ->
+  Forall ge0 out.
+Proof. exact ls_deconv_nonneg_sec. Qed.
+Print Assumptions C17_ls_deconv_nonneg.
+
+Theorem C17_greedy_nonneg_Q : forall signal response off la r inp,
+  nn_greedy_q signal response off la = Ok (r, inp) -> Forall (fun x => (0 <= x)%Qc) inp.
+Proof. exact greedy_nonneg_Q_lemma. Qed.
+Print Assumptions C17_greedy_nonneg_Q.
+
+(* (5) Scale covariance.  If x |-> sc x (multiplication by c) commutes exactly with - x / min, leaves
+   0 and the comparison with 0 unchanged, and sc2 (multiplication by c^2) does the same for the sum of
+   squares and the comparisons of residuals, then scaling every sample scales every output by c, the
+   residual by c^2, and changes no control decision (same panics, same argmin).  The laws are exact for
+   binary64 with c = 2^k in the absence of overflow/underflow (measured per run by rel17scale, k in
+   -20..20), and hold for every c > 0 over the rationals (C17_scale_covariant_Q). *)
+Theorem C17_scale_covariant :
+  forall (F : Type) (zero szero : F) (add sub mul div fmin : F -> F -> F) (neg nonneg : F -> bool)
+         (sc sc2 : F -> F),
+  sc zero = zero ->
+  (forall a b, sub (sc a) (sc b) = sc (sub a b)) ->
+  (forall v r, mul (sc v) r = sc (mul v r)) ->
+  (forall s r, div (sc s) r = sc (div s r)) ->
+  (forall a b, fmin (sc a) (sc b) = sc (fmin a b)) ->
+  (forall x, nonneg (sc x) = nonneg x) ->
+  (forall x, mul (sc x) (sc x) = sc2 (mul x x)) ->
+  (forall a b, add (sc2 a) (sc2 b) = sc2 (add a b)) ->
+  sc2 szero = szero ->
+  forall (signal response : list F) (off la : nat),
+  nn_greedy F zero szero add sub mul div fmin neg nonneg (map sc signal) response off la =
+  res_map (sc_out F sc sc2) (nn_greedy F zero szero add sub mul div fmin neg nonneg signal response off la).
+Proof. exact nn_greedy_scale_sec. Qed.
+Print Assumptions C17_scale_covariant.
+
+Theorem C17_ls_scale_covariant :
+  forall (F : Type) (zero szero inf : F) (add sub mul div fmin : F -> F -> F) (neg nonneg : F -> bool)
+         (ltb : F -> F -> bool) (sc sc2 : F -> F),
+  sc zero = zero ->
+  (forall a b, sub (sc a) (sc b) = sc (sub a b)) ->
+  (forall v r, mul (sc v) r = sc (mul v r)) ->
+  (forall s r, div (sc s) r = sc (div s r)) ->
+  (forall a b, fmin (sc a) (sc b) = sc (fmin a b)) ->
+  (forall x, nonneg (sc x) = nonneg x) ->
+  (forall x, mul (sc x) (sc x) = sc2 (mul x x)) ->
+  (forall a b, add (sc2 a) (sc2 b) = sc2 (add a b)) ->
+  sc2 szero = szero ->
+  (forall a b, ltb (sc2 a) (sc2 b) = ltb a b) ->
+  sc2 inf = inf ->
+  forall (signal response : list F) (offs las : list nat),
+  ls_deconv F inf ltb (nn_greedy F zero szero add sub mul div fmin neg nonneg) (map sc signal) response offs las =
+  res_map (map sc) (ls_deconv F inf ltb (nn_greedy F zero szero add sub mul div fmin neg nonneg) signal response offs las).
+Proof. exact ls_deconv_scale_sec. Qed.
+Print Assumptions C17_ls_scale_covariant.
+
+Theorem C17_scale_covariant_Q : forall c : Qc, (0 < c)%Qc -> forall signal response off la,
+  nn_greedy_q (map (Qcmult c) signal) response off la =
+  res_map (sc_out Qc (Qcmult c) (Qcmult (c * c))) (nn_greedy_q signal response off la).
+Proof. exact scale_covariant_Q_lemma. Qed.
+Print Assumptions C17_scale_covariant_Q.
+
+(* laws of the selection level are satisfiable too (the distinguished element `inf` is 0 in this instance:
+   the rationals have no +infinity fixed by scaling) *)
+Theorem C17_ls_scale_covariant_Q : forall c : Qc, (0 < c)%Qc -> forall signal response offs las,
+  ls_deconv Qc 0%Qc q_dec nn_greedy_q (map (Qcmult c) signal) response offs las =
+  res_map (map (Qcmult c)) (ls_deconv Qc 0%Qc q_dec nn_greedy_q signal response offs las).
+Proof. exact ls_scale_covariant_Q_lemma. Qed.
+Print Assumptions C17_ls_scale_covariant_Q.
+
+(* (6) Isolated pulse.  Waveform: k zeros, then a * response cut to m samples, then t zeros (t > 0 only if
+   the whole response fits): i.e. signal[j] = a * response[j - k] for k <= j < min(n, k + len response),
+   0 elsewhere, n = k + min(m, len response) + t.  If the response window of offset 0 is negative and
+   fits (look_ahead <= m, which is k + look_ahead <= n; the property's "k + 18 <= n" covers every
+   look-ahead 3..=12 of the wire grid), the sweep with offset 0 returns exactly a at k, 0 elsewhere and
+   residual 0 - from six arithmetic facts that hold in any ordered field for a > 0. *)
+Theorem C17_isolated_pulse_exact :
+  forall (F : Type) (zero szero : F) (add sub mul div fmin : F -> F -> F) (neg nonneg : F -> bool)
+         (a : F) (response : list F) (la : nat),
+  1 <= la -> la <= length response -> forallb neg (firstn la response) = true ->
+  nonneg zero = true ->
+  (forall r, neg r = true -> nonneg (mul a r) = false) ->
+  (forall r, neg r = true -> div (mul a r) r = a) ->
+  fmin a a = a ->
+  (forall r, sub (mul a r) (mul a r) = zero) ->
+  add szero (mul zero zero) = szero ->
+  forall k m t, la <= m -> t = 0 \/ length response <= m ->
+  let P := map (mul a) (firstn m response) ++ repeat zero t in
+  nn_greedy F zero szero add sub mul div fmin neg nonneg (repeat zero k ++ P) response 0 la =
+  Ok (szero, repeat zero k ++ a :: repeat zero (length P - 1)).
+Proof. exact isolated_pulse_lemma. Qed.
+Print Assumptions C17_isolated_pulse_exact.
+
+(* ... and the least-squares selection returns that exact recovery: offset 0 with the first look-ahead
+   comes first and reaches residual szero; no later sweep is strictly better because no sum of squares is
+   < szero.  (The sweeps with offset 1 do NOT recover the pulse: they put a * min_j R[j]/R[j+1] at k - 1.
+   They only have to terminate, which needs every window of the grid negative.) *)
+Theorem C17_isolated_pulse_selected :
+  forall (F : Type) (zero szero inf : F) (add sub mul div fmin : F -> F -> F) (neg nonneg : F -> bool)
+         (ltb : F -> F -> bool) (signal response exact : list F) (la0 : nat) (offs las : list nat),
+  nn_greedy F zero szero add sub mul div fmin neg nonneg signal response 0 la0 = Ok (szero, exact) ->
+  (forall off la, In off (0 :: offs) -> In la (la0 :: las) ->
+     exists rwin, slice F response off la = Some rwin /\ forallb neg rwin = true /\ 1 <= la) ->
+  (forall l, ltb (sumsq F szero add mul l) szero = false) ->
+  ltb szero inf = true ->
+  ls_deconv F inf ltb (nn_greedy F zero szero add sub mul div fmin neg nonneg) signal response (0 :: offs) (la0 :: las)
+  = Ok exact.
+Proof. exact isolated_pulse_ls_lemma. Qed.
+Print Assumptions C17_isolated_pulse_selected.
+
+(* Over the rationals, for the wire grid 0..=1 x 3..=12 and ANY response whose first 13 samples are
+   negative (table fact of the binned wire response, checked on the implementation's table by rel17table):
+   a pulse of amplitude a > 0 starting at k with k + 3 <= n is recovered as exactly a at k, 0 elsewhere. *)
+Theorem C17_isolated_pulse_exact_Q : forall (a : Qc) (response : list Qc),
+  (0 < a)%Qc -> 13 <= length response -> forallb q_neg (firstn 13 response) = true ->
+  forall k m t, 3 <= m -> t = 0 \/ length response <= m ->
+  let P := map (Qcmult a) (firstn m response) ++ repeat 0%Qc t in
+  ls_deconv Qc 1%Qc q_dec nn_greedy_q (repeat 0%Qc k ++ P) response (range_incl 0 1) (range_incl 3 12) =
+  Ok (repeat 0%Qc k ++ a :: repeat 0%Qc (length P - 1)).
+Proof. exact isolated_pulse_wire_Q_lemma. Qed.
+Print Assumptions C17_isolated_pulse_exact_Q.
+
+(* non-vacuity: the models run on concrete values *)
+Example C17_nonvacuous_float :
+  nn_greedy_f [(-2)%float; (-4)%float; (-1)%float; 0%float] [(-1)%float; (-2)%float; (-0.5)%float] 0 2
+  = Ok (0%float, [2%float; 0%float; 0%float; 0%float]).
+Proof. vm_compute. reflexivity. Qed.
